@@ -256,6 +256,15 @@ def main():
             bounded_summary.append({k: e.get(k) for k in ("target", "contract", "tried", "accepted", "distinct", "bounded_only", "skipped", "error", "wall_s")} | {"failures": len(e.get("failures", [])) + e.get("more_failures", 0)})
             if e.get("error"):
                 errors.append(f"native {e['contract']}: {e['error'][:500]}")
+            for kw_ in e.get("known_witnesses", []):
+                kf = next((k for k in known if k["id"] == kw_["id"]), None)
+                if kw_.get("error"):
+                    errors.append(f"native {e['contract']}: witness {kw_['id']}: {kw_['error']}")
+                elif kf is None:
+                    errors.append(f"native {e['contract']}: witness {kw_['id']} is not listed in known_findings.json for {prop}")
+                elif kw_["still_fails"] and kf["id"] not in printed_known:
+                    printed_known.add(kf["id"])
+                    print(f"KNOWN-FINDING: property={prop} {kf['id']}: {kf['description']} [{e['target']}: {', '.join(kw_['failed_clauses'])}]")
             for f in e.get("failures", []):
                 kf = match_known_native(known, e["contract"], f)
                 full = f"{prop}/{e['target']}/{f['clause']}@native"
